@@ -259,6 +259,14 @@ func main() {
 			args = append(args, "-pkgs", pkgs)
 		}
 		slog, err := run(outAbs, 20*time.Minute, []string{"GORACE=halt_on_error=0"}, exe, args...)
+		// packages whose table rows changed since the previous run get a longer, denser stress
+		if changed := changedPkgs(root, repo, t.PkgHash); len(changed) > 0 && o.Replay == "" && err == nil {
+			extra["focused_stress_pkgs"] = changed
+			flog, ferr := run(outAbs, 20*time.Minute, []string{"GORACE=halt_on_error=0"}, exe,
+				"-d", "3s", "-rtcp", "6", "-writers", "4", "-readers", "4", "-pkgs", strings.Join(changed, ","))
+			slog += flog
+			err = ferr
+		}
 		extra["race_stress_s"] = time.Since(t0).Seconds()
 		extra["race_stress_per_interceptor"] = per.String()
 		cur, races, stalls, begun := "", 0, 0, 0
@@ -312,6 +320,44 @@ func main() {
 	}
 	cq.Write(o, "a struct type counts as non-trivial when some row outside the constructor phase writes one of its fields",
 		[]*cq.Set{tset, oset}, extra, fails)
+}
+
+// stressPkg maps a package name of the table to the package name c10race knows.
+var stressPkg = map[string]string{"icc": "gcc", "cc": "gcc", "irtpbuffer": "nack", "flexfec_util": "flexfec",
+	"isequencenumber": "twcc", "intp": "report"}
+
+// changedPkgs compares the per-package hashes of the table rows with those of the previous run on the same tree.
+func changedPkgs(root, repo string, cur map[string]string) []string {
+	f := filepath.Join(root, "run", "c10-pkghash-"+strings.NewReplacer("/", "_").Replace(repo)+".json")
+	prev := map[string]string{}
+	if raw, err := os.ReadFile(f); err == nil {
+		_ = json.Unmarshal(raw, &prev)
+	}
+	if js, err := json.Marshal(cur); err == nil {
+		_ = os.WriteFile(f, js, 0o644)
+	}
+	if len(prev) == 0 {
+		return nil
+	}
+	set := map[string]bool{}
+	for p, h := range cur {
+		if prev[p] != h {
+			if m, ok := stressPkg[p]; ok {
+				p = m
+			}
+			set[p] = true
+		}
+	}
+	var out []string
+	for p := range set {
+		out = append(out, p)
+	}
+	sort.Strings(out)
+	if len(out) > 4 {
+		out = out[:4]
+	}
+
+	return out
 }
 
 func pkgOf(name string) string {
